@@ -53,7 +53,7 @@ def victims_of(cmds):
 # ------------------------------------------------------------------------------------------------
 class Case:
     __slots__ = ("scn", "op", "spec", "inv0", "inv1", "cmds", "res", "calls", "kill", "line", "queries", "nfaults",
-                 "sim", "sl")
+                 "sim", "sl", "variant", "seed", "extra")
 
 
 def run_case(env, scn, op, spec, inv0, cmds, sim=False, no_lock=False):
@@ -61,7 +61,8 @@ def run_case(env, scn, op, spec, inv0, cmds, sim=False, no_lock=False):
     scn.build()
     inv0 = A.inventory(scn.base)          # inode numbers differ between rebuilds: take the inventory of THIS build
     r = A.run_shim(env["fclones"], env["shim"], A.cli_args(op, scn, no_lock), scn.report, scn.base,
-                   fail=spec.get("fail"), fail2=spec.get("fail2"), kill=spec.get("kill"), sim_ficlone=sim)
+                   fail=spec.get("fail"), fail2=spec.get("fail2"), kill=spec.get("kill"), sim_ficlone=sim,
+                   cwd=getattr(scn, "cwd", None))
     c = Case()
     c.scn, c.op, c.spec, c.inv0, c.cmds, c.res, c.sim, c.sl = scn, op, spec, inv0, cmds, r, sim, not no_lock
     c.inv1 = A.inventory(scn.base)
@@ -199,6 +200,30 @@ def explore(env, make_scn, op, tier_quick, rng, errnos, shard, nshards):
             for d in range(1, span + 1):
                 out.append(run_case(env, scn, op, {"fail": (k, rng.choice(errnos)), "fail2": (k + d, rng.choice(errnos))},
                                     inv0, cmds, sim=sim))
+    if op == "move":
+        # the copy branch: every rename forced to fail with EXDEV (as across file systems), then a second failure /
+        # a kill at every call of the fallback (mkdir check, open+truncate, fchmod, copy_file_range x2, unlink)
+        c0 = run_case(env, scn, op, {}, inv0, cmds)
+        renames = [x["ks"][0] for x in c0.calls if x["kind"] == "rename"]
+        for n, kr in enumerate(renames):
+            if n % nshards != shard:
+                continue
+            base = {"fail": (kr, "EXDEV")}
+            cb = run_case(env, scn, op, base, inv0, cmds)
+            out.append(cb)
+            # calls of the fallback = everything after kr up to the next command's open-for-lock
+            ks = []
+            for x in cb.calls:
+                if x["ks"][0] > kr:
+                    if x["kind"] == "open" and ks:
+                        break
+                    ks += x["ks"]
+            for k2 in ks:
+                es = [errnos[k2 % 5], errnos[(k2 + 2) % 5]] if tier_quick else errnos
+                for e in es:
+                    out.append(run_case(env, scn, op, dict(base, fail2=(k2, e)), inv0, cmds))
+                for when in ("before", "after"):
+                    out.append(run_case(env, scn, op, dict(base, kill=(k2, when)), inv0, cmds))
     return out
 
 
@@ -263,6 +288,10 @@ def run(ctx):
         ctx.count()
         spec = c.spec
         kind = "none" if not spec else ("kill_" + spec["kill"][1] if "kill" in spec else ("pair" if "fail2" in spec else spec["fail"][1]))
+        if spec and "kill" in spec and "fail" in spec:
+            kind = "rename_EXDEV+" + kind
+        elif spec and "fail2" in spec and spec["fail"][1] == "EXDEV" and c.op == "move" and any(x["kind"] == "copy" for x in c.calls):
+            kind = "rename_EXDEV+" + spec["fail2"][1]
         ctx.distinct((c.scn.sid, c.op, repr(spec), c.sim), bool(spec))
         ctx.bump("operation", c.op + ("+simulated_ficlone" if c.sim else ""))
         ctx.bump("fault", kind)
@@ -270,7 +299,7 @@ def run(ctx):
         ctx.bump("commands_in_script", len(c.cmds))
         hit = None
         if spec:
-            k = (spec.get("fail") or spec.get("kill"))[0]
+            k = (spec.get("kill") or spec.get("fail2") or spec.get("fail"))[0]
             for x in c.calls:
                 if k in x["ks"]:
                     hit = x["kind"]
